@@ -308,6 +308,59 @@ def guard_eval(repo: Repo) -> RuleRun:
         if not bad:
             store = op.get("chops")
             r.check(isinstance(store, dict) and len(store.get(axis, [])) == 1 and sum(len(v) for v in store.values()) == 1, ochop, f"chop stored on axis {axis} only", f"Operation.chop({axis}) leaves the store as {store!r}", key=f"Operation.chop(axis={axis}):stored")
+    # Operation.unchop: the mutator that empties an axis must refuse the axes its sibling chop() refuses - an unknown axis
+    # silently grows the store by a key nothing ever reads
+    ounchop = repo.func("construct.operations.operation.Operation.unchop")
+    for axis, bad in ((-1, True), (0, False), (2, False), (3, True), (5, True)):
+        op = Obj("op", cls=repo.cls("construct.operations.operation.Operation"))
+        res0 = _try(Evaluator(repo=repo, module=oinit.module, call_hook=op_hook), oinit, [op, Sym("bottom_face"), Sym("top_face")])
+        r.require(_raised(res0) is None and op.has("chops"), "Operation.__init__ does not create the chop store on the model")
+        for ax in (0, 1, 2):
+            _try(Evaluator(repo=repo, module=ochop.module, call_hook=op_hook), ochop, [op, ax], {"count": 5})
+        res = _try(Evaluator(repo=repo, module=ounchop.module, call_hook=op_hook), ounchop, [op, axis])
+        expect(ounchop, res, bad, f"Operation.unchop(axis={axis})", ("KeyError", "ValueError", "IndexError", "RuntimeError"))
+        store = op.get("chops")
+        if not bad:
+            r.check(isinstance(store, dict) and sorted(store) == [0, 1, 2] and [len(store[k]) for k in (0, 1, 2)] == [0 if k == axis else 1 for k in (0, 1, 2)], ounchop, f"unchop({axis}) empties axis {axis} only", f"Operation.unchop({axis}) leaves the store as {store!r}", key=f"Operation.unchop(axis={axis}):stored")
+    # Face.remove_edges: the same corner range as add_edge / project_edge of the same class
+    fre = repo.func("construct.flat.face.Face.remove_edges")
+
+    def line_hook(ev, call, name):
+        if (name or "").split(".")[-1] == "Line":
+            return Obj("fresh-line")
+        return NO_MATCH
+
+    for corners, bad in (([-1], True), ([0], False), ([3], False), ([4], True), ([1, -2], True), (None, False)):
+        face = sym_face(repo)
+        before = list(face.get("edges"))
+        res = _try(Evaluator(repo=repo, module=fre.module, call_hook=line_hook), fre, [face, corners])
+        expect(fre, res, bad, f"Face.remove_edges({corners})", ("FaceCreationError", "IndexError", "ValueError"))
+        if not bad:
+            after = face.get("edges")
+            want = set(range(4)) if corners is None else set(corners)
+            got = {i for i in range(4) if after[i] is not before[i]}
+            r.check(len(after) == 4 and got == want, fre, f"remove_edges({corners}) replaces edges {sorted(want)} only", f"Face.remove_edges({corners}) replaces the edges at {sorted(got)}", fre.node, key=f"Face.remove_edges({corners}):target")
+    # Stack.get_slice: axis 0, 1, 2 only - any other axis must not be served as one of them
+    gsl = repo.func("construct.stack.Stack.get_slice")
+    for axis, bad in ((-1, True), (0, False), (1, False), (2, False), (3, True), (7, True)):
+        stack = Obj("stack", cls=repo.cls("construct.stack.Stack"))
+        shapes = []
+        for k in range(3):
+            grid = [[Obj(f"op{k}.{i}.{j}") for j in range(2)] for i in range(2)]
+            sh = Obj(f"shape{k}", grid=grid, operations=[o for row in grid for o in row])
+            shapes.append(sh)
+        stack.set("shapes", shapes)
+        res = _try(Evaluator(repo=repo, module=gsl.module), gsl, [stack, axis, 0])
+        expect(gsl, res, bad, f"Stack.get_slice(axis={axis})", ("ValueError", "KeyError", "IndexError", "RuntimeError"))
+        if not bad:
+            got = sorted(repr(o) for o in res) if isinstance(res, list) else None
+            if axis == 2:
+                want = sorted(repr(o) for o in shapes[0].get("operations"))
+            elif axis == 0:
+                want = sorted(repr(shapes[k].get("grid")[x][0]) for k in range(3) for x in range(2))
+            else:
+                want = sorted(repr(shapes[k].get("grid")[0][y]) for k in range(3) for y in range(2))
+            r.check(got == want, gsl, f"get_slice({axis}, 0) returns the operations of that slice", f"Stack.get_slice({axis}, 0) returns {got}, expected {want}", gsl.node, key=f"Stack.get_slice(axis={axis}):result")
     # corner indexes of the projection API: Python's negative indexes must not wrap around to another corner
     pc = repo.func("construct.operations.operation.Operation.project_corner")
     for v, bad in ((-1, True), (0, False), (3, False), (4, False), (7, False), (8, True), (-8, True)):
